@@ -1,8 +1,8 @@
 import Sp.Complete
 open Model
 
-/-- ceiling spec assumed here (mirror of `leftFloor_spec`, omitted in the spike) -/
-def CeilOK (π : NSeq) : Prop := ∀ k, CeilSpec π k k (leftCeil π k)
+def CeilOK (π : NSeq) : Prop := ∀ k, CeilSpec' π k k (leftCeil π k)
+theorem ceilOK (π : NSeq) : CeilOK π := fun k => leftCeil_spec' π k
 
 structure GoodPrefix (π σ : NSeq) (i : Nat) (occ : List Nat) : Prop where
   lt : ∀ x ∈ occ, x < i
